@@ -125,6 +125,9 @@ def cases(shard, nshards, seed, tier):
     for name, n, pairs in k8:
         if mine():
             yield {"family": "eight-stem-group", "name": name, "n": n, "pairs": pairs}
+    name, n, pairs = gen2d.thousand_stems()
+    if mine():
+        yield {"family": "hostile", "name": name, "n": n, "pairs": pairs}
     # sparse groups of nine stems (9! stem orders; long runs of orders that add nothing new):
     # a chain, a star (one stem crossed by eight nested ones) and random sparse shapes
     k9 = []
